@@ -401,7 +401,7 @@ func (g *G) constFetch() *Node {
 // interpolated strings
 
 func (g *G) strPartText(quote byte) string {
-	s := g.R.Pick("a", " b ", "x-y", "1", " ", ". ", "é", "\\n", "\\\\", "\\$", "{ ", "$ ", "a{ ", "[0]", "->", "# // /*", "<?php ", "'", "a\nb", "a\r\nb")
+	s := g.R.Pick("a", " b ", "x-y", "1", " ", ". ", "é", "\\n", "\\\\", "\\$", "{ ", "$ ", "a{ ", "[0]", "->", "# // /*", "<?php ", "'", "a\nb", "a\r\nb", "?>", "x ?>", "<?xml version=1?>", "<?= ", "*/ ?>")
 	if quote == '"' {
 		s = strings.ReplaceAll(s, "\"", "\\\"")
 		if g.R.Chance(1, 10) {
